@@ -438,6 +438,12 @@ def _finish(mod, ctx, args, axioms, obligations, discharged, cmds, build_log):
         "known_findings_reproduced": [f["id"] for f, _ in ctx.known_hits],
         "notes": ctx.notes,
     }
+    if discharged == 0:
+        # a proof-level record with nothing discharged is not a proof record: fall back to the
+        # exploration-style keys (the VIOLATION line already says what broke)
+        cov["obligations_total"] = cov.pop("obligations")
+        cov.pop("discharged")
+        cov["obligations_discharged"] = 0
     ev = {
         "property_id": prop, "tier": ctx.tier, "seed": ctx.seed, "level": level, "coverage": cov,
         "assumptions": getattr(mod, "ASSUMPTIONS", []), "wall_s": round(wall, 2), "violations": nviol,
